@@ -31,7 +31,7 @@ def check(ctx: Ctx) -> None:
         rep.ob("R19.1", "the only thing serve_forever waits for is the server start-up", ctx.is_await_of(s, "_get_server_instance"), node=s)
     rep.floor("R19.1", "await of _get_server_instance", len([s for s in susp if ctx.is_await_of(s, "_get_server_instance")]), 1)
     for r in ctx.distinct_sites(ctx.nodes(f, lambda n: n.op == "return")):
-        v = r.ast.value
+        v = ctx.vals.resolve(f, r.ast.value) if r.ast.value is not None else None
         ok = isinstance(v, ast.Call) and ctx.an.scope(f).callee(v).name in CREATE_TASK and v.args and isinstance(v.args[0], ast.Call) and \
             any(t.name == "_serve_forever" for t in ctx.an.scope(f).callee(v.args[0]).targets)
         rep.ob("R19.1", "serve_forever returns the task running _serve_forever()", ok, node=r)
